@@ -300,3 +300,79 @@ def call_name(c):
         return ast.unparse(c.func)
     except Exception:
         return ''
+
+
+# ------------------------------------------------------------------------------------------------------------
+# forward must-analysis of one boolean fact, with branch refinement
+# ------------------------------------------------------------------------------------------------------------
+def must_fact(g, gen_nodes=(), gen_edges=(), kill_nodes=(), entry_value=False, exc_keeps=True):
+    """IN[n] for every node: the fact holds on *every* path from the entry to n.
+    gen_nodes: the fact holds after the node completed normally; gen_edges: {(node id, label)} edges that establish it
+    (a test outcome that implies it); kill_nodes: the fact is lost after the node.  On an 'exc' edge out of a gen node the
+    fact is not established (the statement may not have completed); `exc_keeps`: other nodes pass the incoming fact along
+    their exception edges."""
+    gen_nodes, gen_edges, kill_nodes = set(gen_nodes), set(gen_edges), set(kill_nodes)
+    ids = [n.id for n in g.nodes]
+    IN = {i: True for i in ids}
+    IN[g.entry.id] = entry_value
+    preds = {i: [] for i in ids}
+    for u in ids:
+        for v, l in g.succ[u]:
+            preds[v].append((u, l))
+    def out(u, l):
+        if (u, l) in gen_edges:
+            return True
+        if u in kill_nodes:
+            return False
+        if u in gen_nodes:
+            return l != 'exc'
+        if l == 'exc' and not exc_keeps:
+            return False
+        return IN[u]
+    changed = True
+    while changed:
+        changed = False
+        for n in ids:
+            if n == g.entry.id:
+                continue
+            if not preds[n]:
+                continue
+            v = all(out(u, l) for u, l in preds[n])
+            if v != IN[n]:
+                IN[n] = v
+                changed = True
+    return IN
+
+def eval3(test, atom):
+    """three-valued evaluation of a boolean expression: atom(node) -> True / False / None for a sub-expression it knows, NotImplemented otherwise"""
+    r = atom(test)
+    if r is not NotImplemented:
+        return r
+    if isinstance(test, ast.UnaryOp) and isinstance(test.op, ast.Not):
+        v = eval3(test.operand, atom)
+        return None if v is None else (not v)
+    if isinstance(test, ast.BoolOp):
+        vals = [eval3(v, atom) for v in test.values]
+        if isinstance(test.op, ast.And):
+            if any(v is False for v in vals): return False
+            if all(v is True for v in vals): return True
+            return None
+        if any(v is True for v in vals): return True
+        if all(v is False for v in vals): return False
+        return None
+    if isinstance(test, ast.Constant):
+        return bool(test.value)
+    return None
+
+def implied_edges(g, atom_false_world):
+    """edges (test node id, label) that can only be taken when the `world` assumed by atom_false_world does NOT hold:
+    the test evaluates to a constant b in that world, so the edge `not b` implies the world's negation"""
+    out = set()
+    for n in g.nodes:
+        if n.kind == 'test':
+            v = eval3(n.ast.test, atom_false_world)
+            if v is True:
+                out.add((n.id, 'false'))
+            elif v is False:
+                out.add((n.id, 'true'))
+    return out
